@@ -663,7 +663,7 @@ fn gen_spec(g: &mut Gen, depth: usize, in_len: usize, o: &LoopOpts) -> LoopSpec 
                 // zip: loop stream on either side
                 // zip and joins: the loop stream on either side (with the side input on the left
                 // the cached side ends first in every round after the first)
-                if matches!(bop, BinOp::Zip | BinOp::Join(..)) && g.t.draw(2) == 1 {
+                if g.t.draw(2) == 1 {
                     if matches!(bop, BinOp::Join(..)) {
                         b.repl = Repl::Unlimited;
                     }
@@ -840,6 +840,36 @@ pub fn gen_state_skew(t: &mut Tape) -> Scenario {
     }
     let d_us = [1_000u64, 5_000, 50_000][g.t.draw(3) as usize];
     let iterate = g.t.draw(3) == 2;
+    // in half of the runs the state is also read in a block headed by a binary operator that
+    // combines the loop stream with a side input, on either side: that block's input must wait
+    // for the new state like every other block of the body
+    if g.t.draw(2) == 1 {
+        let ns = [1usize, 3, 12][g.t.draw(3) as usize];
+        let par = g.t.draw(2) == 1;
+        let sid = g.add_source(par, ns, 7);
+        let sid = g.unlimited(sid);
+        g.attrs[sid].take();
+        let bop = if iterate {
+            BinOp::Merge
+        } else {
+            match g.t.draw(4) {
+                0 => BinOp::Merge,
+                1 => BinOp::Join(JoinKind::Inner, JoinForm::Shortcut),
+                2 => BinOp::Join(JoinKind::Left, JoinForm::HashHash),
+                _ => BinOp::Join(JoinKind::Inner, JoinForm::Keyed),
+            }
+        };
+        if g.t.draw(2) == 1 {
+            body.push(Step::Bin(SIDE_BASE + sid, cur, bop));
+        } else {
+            body.push(Step::Bin(cur, SIDE_BASE + sid, bop));
+        }
+        cur += 1;
+        if g.t.draw(2) == 1 {
+            body.push(Step::Un(cur, UnOp::Map(MapFn::Add(1))));
+            cur += 1;
+        }
+    }
     let spec = LoopSpec {
         iterate,
         rounds: 2 + g.t.draw(3) as usize,
